@@ -430,4 +430,9 @@ def write_evidence(check, tier, master, st, violations, extra=None):
     with open(tmp, 'w') as f:
         json.dump(doc, f, indent=1, default=repr)
     os.replace(tmp, path)
+    if tier == 'thorough':
+        # keep a copy that later quick runs do not overwrite
+        os.makedirs(os.path.join(d, 'thorough'), exist_ok=True)
+        with open(os.path.join(d, 'thorough', check.ID + '.json'), 'w') as f:
+            json.dump(doc, f, indent=1, default=repr)
     return path
